@@ -118,6 +118,7 @@ func registerVerif(reg func(string, func(*Interp, []Value) Value)) {
 		return nil
 	})
 	reg("verif:verifSymbolic", func(ip *Interp, a []Value) Value { return tTrue })
+	reg("verif:verifRun", func(ip *Interp, a []Value) Value { return i64(0) })
 	reg("verif:verifIsConcrete", func(ip *Interp, a []Value) Value {
 		switch v := a[0].(type) {
 		case Iface:
